@@ -61,3 +61,6 @@ func VH_c12_drain_Range()           { drain(find("Range")) }
 func VH_c12_drain_RangeClosed()     { drain(find("RangeClosed")) }
 func VH_c12_drain_GenerateTake()    { drain(find("GenerateTake")) }
 func VH_c12_drain_SeqMethods()      { drain(find("SeqMethods")) }
+
+func VH_c12_drain_Concat_MethodMap_Concat()    { drain(find("Concat_MethodMap_Concat")) }
+func VH_c12_drain_Concat_MethodFilter_Concat() { drain(find("Concat_MethodFilter_Concat")) }
